@@ -213,6 +213,9 @@ func TestVerifC09(t *testing.T) {
 					for _, r := range leaveRows {
 						out.emit(r)
 					}
+					for _, m := range res.modes {
+						out.emit(m)
+					}
 					meta.emit(map[string]any{"scn": id, "scenario": sc, "acked": acked})
 				}
 			}
@@ -285,6 +288,9 @@ func TestVerifC09(t *testing.T) {
 		runs++
 		if res.skipped {
 			continue
+		}
+		for _, m := range res.modes {
+			out.emit(m)
 		}
 		meta.emit(map[string]any{"scn": id, "scenario": sc})
 	}
